@@ -70,14 +70,83 @@ def high_numbers(ctx):
             ctx.dist("five_digit_version_numbers")
 
 
+def long_lived_handle(ctx, n):
+    """One client keeps its archive handle across several backups (as a service using the library would) while another client
+    deletes versions, collects garbage or makes backups of its own in between; contents come back that only a deleted version
+    held.  Every version completed and not deleted must restore to its snapshot."""
+    cases = []
+    for t in range(n):
+        def img(tag, m):
+            return {"k": "f", "data": (tag * ctx.rng.choice([3, 40])).hex(), "mode": 0o644, "mtime": 10**18 + m}
+        base = scen.small_tree(ctx.rng)
+        ta, tb, tc = (json.loads(json.dumps(base)) for _ in range(3))
+        ta["c"]["image"] = img(b"content-A-", 1)
+        tb["c"]["image"] = img(b"content-B-", 2)
+        tc["c"]["image"] = dict(ta["c"]["image"], mtime=10**18 + 3)          # the old content again, newer mtime
+        o = {"meph": ctx.rng.choice([2, 100000]), "mbs": ctx.rng.choice([8, 64]), "sfc": ctx.rng.choice([0, 4, 1 << 20])}
+        variant = t % 3
+        if variant == 0:      # another client deletes the first version, then the held handle backs up the old content again
+            ops = [{"op": "mktree", "tree": ta}, {"op": "backup", "opts": o}, {"op": "mktree", "tree": tb}, {"op": "backup", "opts": o},
+                   {"op": "delete", "bands": [0], "other": True}, {"op": "mktree", "tree": tc}, {"op": "backup", "opts": o}]
+            expect = {1: tb, 2: tc}
+        elif variant == 1:    # the deletion is the held handle's own, the next backup another client's
+            ops = [{"op": "mktree", "tree": ta}, {"op": "backup", "opts": o}, {"op": "mktree", "tree": tb}, {"op": "backup", "opts": o, "other": True},
+                   {"op": "delete", "bands": [0]}, {"op": "mktree", "tree": tc}, {"op": "backup", "opts": o, "other": True},
+                   {"op": "mktree", "tree": ta}, {"op": "backup", "opts": o}]
+            expect = {1: tb, 2: tc, 3: ta}
+        else:                 # two clients back up alternately, a third collects garbage in between
+            ops = [{"op": "mktree", "tree": ta}, {"op": "backup", "opts": o}, {"op": "mktree", "tree": tb}, {"op": "backup", "opts": o, "other": True},
+                   {"op": "delete", "bands": [0], "other": True}, {"op": "delete", "bands": [], "other": True},
+                   {"op": "mktree", "tree": tc}, {"op": "backup", "opts": o},
+                   {"op": "mktree", "tree": tb}, {"op": "backup", "opts": o, "other": True}, {"op": "mktree", "tree": ta}, {"op": "backup", "opts": o}]
+            expect = {1: tb, 2: tc, 3: tb, 4: ta}
+        steps = [{"op": "init"}, {"op": "session", "ops": ops}, {"op": "versions"}]
+        for b in sorted(expect):
+            steps.append({"op": "restore", "band": b, "dest": f"out{b}"})
+        cases.append({"id": f"ll{t}", "steps": steps, "expect": expect})
+    res = ctx.cvh_run(cases)
+    for c in cases:
+        r = res.get(c["id"])
+        ctx.count()
+        small = {"steps": c["steps"]}
+        if r is None or any(isinstance(x, dict) and x.get("panic") for x in r):
+            ctx.oracle_fail("history/panic", "a session through a long-lived archive handle crashed or hung", small)
+            continue
+        sess = r[1]
+        subs = sess.get("value") if sess.get("result") == "ok" else None
+        if not subs or any(x.get("result") != "ok" for x in subs):
+            ctx.oracle_fail("history/backup-failed", f"an operation of the session failed: {json.dumps(sess.get('err') or [x for x in subs or [] if x.get('result') != 'ok'])[:300]}", small)
+            continue
+        bad = None
+        for k, b in enumerate(sorted(c["expect"])):
+            got = r[3 + k]
+            want = c["expect"][b]
+            if got.get("result") != "ok" or got.get("monitor_errors"):
+                bad = f"completed version b{b:04d} does not restore: {json.dumps(got.get('err') or got.get('monitor_errors'))[:200]}"
+                break
+            gb, wb = scen.tree_file_bytes(got.get("tree") or {}), scen.tree_file_bytes(want)
+            if gb != wb:
+                p_ = next(iter(sorted(set(gb) ^ set(wb)) or [q for q in wb if gb.get(q) != wb[q]]))
+                bad = f"completed version b{b:04d} restores differently from what was backed up at {p_!r}"
+                break
+        if bad:
+            ctx.oracle_fail("history/version-does-not-restore" if "does not restore" in bad else "history/version-differs",
+                            "long-lived handle beside another client: " + bad, small)
+            continue
+        ctx.nontrivial("long-lived:" + c["id"])
+        ctx.dist("long_lived_handle_sessions")
+
+
 def run(ctx):
     quick = ctx.tier == "quick"
+    long_lived_handle(ctx, 6 if quick else 60)
     cases = build(ctx, 36 if quick else 400, 8 if quick else 18)
     ctx.cov["rule"] = ("random histories over {source changes (content+mtime, same-size content, chmod, add/remove, kind swaps), backup(options), backup "
                        "killed at a random storage operation (incl. the empty-file state) and later resumed, delete(subset), gc, validate}; after "
                        "every step every version that was completed and not deleted is restored by id and must equal the snapshot taken when "
                        "that backup ran, and 'latest complete' must select the newest of them; + exact L4 trace correspondence of the whole "
-                       "history. non-trivial = distinct history with >= 2 completed versions")
+                       "history; + sessions in which one client keeps ONE archive handle across its backups while another client deletes, collects or "
+                       "backs up in between and deleted contents come back. non-trivial = distinct history with >= 2 completed versions")
     res = ctx.cvh_run(cases, timeout=3000)
     hs = []
     for c in cases:
